@@ -226,7 +226,14 @@ def gen_sadump(rng, d, tag):
     stored = runs_of([p for p in pages if kinds[p] == "dump"])
     ram = runs_of(pages)
     ops = make_ops(rng, stored, ram, maxm, 1 << 40)
-    return "E s - T %s;%s @ %s | %s" % (runs_str(stored), runs_str(ram), path, " ".join(ops))
+    # model input: the dump header fields and the two bitmaps as the file has them
+    raw = open(path, "rb").read()
+    hdr_pos = bs                                   # single partition: block 0 is the partition header
+    sub, bb, db = struct.unpack("<III", raw[hdr_pos + 48:hdr_pos + 60])
+    mem_off = hdr_pos + bs * (1 + sub)
+    area = raw[mem_off:mem_off + bs * (bb + db)]
+    model = "s %x:%x:%x:%x:%x:%x A=%s" % (bs, sub, bb, db, maxm, hdr_pos, rle(area))
+    return "E %s T %s;%s @ %s | %s" % (model, runs_str(stored), runs_str(ram), path, " ".join(ops))
 
 
 # -- ELF ----------------------------------------------------------------------
